@@ -7,4 +7,4 @@ ls -d /tmp/${prefix}_c* 2>/dev/null | while read d; do
   [ -d "$d/_seed" ] || continue
   pid=$(basename $d | sed "s/${prefix}_c/C/")
   echo "$d $pid"
-done | xargs -P 5 -L 1 sh -c '/venv/bin/python tools/seedbatch.py $0 $1 2>&1 | cut -c1-260'
+done | xargs -P ${SEED_PAR:-5} -L 1 sh -c '/venv/bin/python tools/seedbatch.py $0 $1 2>&1 | cut -c1-260'
